@@ -128,6 +128,62 @@ class AlreadyComputed(FuncSpec):
 
 
 @register
+class AlreadyComputedHistoryFree(AlreadyComputed):
+    """already_computed is a function of the *current* storage state only: called a second time for the same node after
+    the node's targets were replaced (what a store does when it re-targets an array) or lost chunks, the verdict follows
+    the second state — no verdict is remembered across calls (frame: no module-level state carries information from
+    one call to the next)."""
+
+    name = f"{PLAN}:already_computed[history-free]"
+    props = ("C09", "C10")
+
+    def configs(self, tier):
+        return [dict(pipeline=True, outs=["any"]), dict(pipeline=True, outs=["any", "any"])]
+
+    def call(self, c, args, kwargs):
+        it = c.interp
+        fn = it.world.lookup(self.target)
+        name, dag, nodes = args
+        first = it.call(fn, [name, dag, nodes], {})
+        c.first, c.first_targets = first, list(c.targets)
+        # the same arrays (same names) now have other targets / another fill state
+        c.targets = []
+        for i, kind in enumerate(c.cfg["outs"]):
+            t = Target(c, f"u{i}", kind)
+            c.targets.append(t)
+            nodes[f"array-{i:03}"]["target"] = t
+        return it.call(fn, [name, dag, nodes], {})
+
+    def ensures(self, c, a, k, res):
+        conds = [c.And(t.ndim != 0, t.nchunks_initialized == t.nchunks) for t in c.targets]
+        yield "second-verdict-follows-the-second-state", c.And(*conds) if res else c.Not(c.And(*conds))
+
+    def replay(self, cfg, model, ob):
+        n = len(cfg["outs"])
+        return f"""
+import types
+import networkx as nx
+from cubed.core.plan import already_computed
+dag = nx.MultiDiGraph()
+nodes = {{"op-001": dict(name="op-001", type="op", pipeline=object())}}
+dag.add_node("op-001")
+for i in range({n}):
+    an = f"array-{{i:03}}"
+    nodes[an] = dict(name=an, type="array", target=types.SimpleNamespace(ndim=1, nchunks=2, nchunks_initialized=2))
+    dag.add_node(an); dag.add_edge("op-001", an)
+first = already_computed("op-001", dag, nodes)
+for i in range({n}):
+    nodes[f"array-{{i:03}}"]["target"] = types.SimpleNamespace(ndim=1, nchunks=2, nchunks_initialized=0)  # re-targeted: empty
+second = already_computed("op-001", dag, nodes)
+reproduced = bool(second)
+detail = f"first verdict {{first}} (all chunks present), second verdict {{second}} after the arrays were given empty targets"
+"""
+
+    def canaries(self, c, a, k, res):
+        return ()
+
+
+@register
 class SkipNode(FuncSpec):
     """skip_node(name, dag, nodes): True iff the node has no pipeline or is marked computed."""
 
